@@ -223,7 +223,77 @@ async def run_clients(net, plan, which):
         w.cleanup()
 
 
+async def two_lives(net, hyg, plan):
+    """one Client object, two sessions one after the other: the second session says to the server what a fresh client's
+    session says (nothing negotiated in the first one is taken for granted in the second)"""
+    import logging
+
+    class Grab(logging.Handler):
+        def __init__(self):
+            super().__init__(logging.DEBUG)
+            self.lines = []
+
+        def emit(self, record):
+            try:
+                self.lines.append(record.getMessage())
+            except Exception:
+                pass
+    w = W.World(net, tree=corpus_tree(["/s0"]))
+    await w.start()
+    log = logging.getLogger("aioftp.client")
+    old_level = log.level
+    log.setLevel(logging.DEBUG)
+    lives = []
+    try:
+        reused = aioftp.Client(path_io_factory=aioftp.MemoryPathIO)
+        for life in range(3):
+            c = reused if life < 2 else aioftp.Client(path_io_factory=aioftp.MemoryPathIO)      # life 2: a fresh object, the reference
+            g = Grab()
+            log.addHandler(g)
+            try:
+                await c.connect("127.0.0.1", 2121)
+                await c.login()
+                for op in plan["ops"]:
+                    if op == "upload":
+                        async with c.upload_stream("/s0/up.bin") as st:
+                            await st.write(b"12345")
+                    elif op == "download":
+                        async with c.download_stream("/s0/f.bin") as st:
+                            await st.read()
+                    elif op == "list":
+                        await c.list("/s0")
+                    elif op == "cd":
+                        await c.change_directory("/s0/dir")
+                        await c.get_current_directory()
+                await c.quit()
+            finally:
+                log.removeHandler(g)
+            # what was sent: lines that look like commands (verb in capitals first)
+            cmds = [ln.split(" ")[0] for ln in g.lines if ln[:4].strip().isalpha() and ln[:3].isupper()]
+            lives.append(cmds)
+        viol = []
+        if lives[1] != lives[2]:
+            viol.append({"key": "second-session-of-a-client-differs-from-a-fresh-one",
+                         "msg": f"ops {plan['ops']}: the re-used Client sent {lives[1]} in its second session, a fresh Client sends {lives[2]}"})
+        await w.stop()
+        return {"violations": viol, "lives": lives}
+    finally:
+        log.setLevel(old_level)
+        w.cleanup()
+
+
 def run_clients_plan(plan, out):
+    if plan.get("two_lives"):
+        async def main0(net, hyg):
+            return await two_lives(net, hyg, plan)
+        res, info = W.run(main0, seed=plan["seed"], net_kwargs=dict(latency=0.001))
+        if res is None:
+            return W.failed(info, "two lives")
+        out["monitors"]["client_two_lives"] = out["monitors"].get("client_two_lives", 0) + 1
+        for v in res["violations"]:
+            v["replay_case"] = {"plans": [plan]}
+            out["violations"].append(v)
+        return None
     n = len(plan["prefixes"])
     solos = []
     for i in range(n):
@@ -433,5 +503,7 @@ def gen_cases(tier, seed):
                 plans.append({"clients": True, "seed": seed * 17 + k, "prefixes": [f"/s{x}" for x in range(k)], "scripts": ["client"] * k,
                               "ops": [[op, "list_recursive", op] for _ in range(k)], "offsets": [0.0] * k, "gaps": [gap] * k,
                               "backend_delay": [0, 0.0006] if gap else None})
+    for ops in (["upload"], ["download", "upload"], ["list", "download"], ["cd", "list", "upload"]):
+        plans.append({"clients": True, "two_lives": True, "seed": seed, "ops": ops, "prefixes": ["/s0"], "scripts": ["client"]})
     per = 6
     return [{"plans": plans[i:i + per]} for i in range(0, len(plans), per)]
